@@ -484,14 +484,34 @@ func oracleC20(c *CaseC20) *Failure {
 
 func init() { registerReplay("c20", oracleC20) }
 
+var c20lt []string
+
+// c20ListTypes: the message types that carry a repeating group (object list).
+func c20ListTypes() []string {
+	if c20lt == nil {
+		for _, tn := range TypeNames {
+			for _, f := range Types[tn].Fields {
+				if f.Kind == "objlist" {
+					c20lt = append(c20lt, tn)
+					break
+				}
+			}
+		}
+	}
+	return c20lt
+}
+
 func TestC20(t *testing.T) {
 	Col.Property = "C20"
 	ReplayRegress(t, "C20")
 	t.Run("batches", func(t *testing.T) {
 		CheckProp(t, "C20", "c20", "batches", func(rt *rapid.T) *CaseC20 {
 			n := rapid.IntRange(8, 48).Draw(rt, "n")
-			c := &CaseC20{Goroutines: rapid.SampledFrom([]int{2, 8, 32}).Draw(rt, "g"), Rounds: rapid.IntRange(1, 4).Draw(rt, "rounds"),
+			c := &CaseC20{Goroutines: rapid.SampledFrom([]int{2, 8, 32, 2, 8, 32, 8, 32, 32, 2, 8, 32, 2500}).Draw(rt, "g"), Rounds: rapid.IntRange(1, 4).Draw(rt, "rounds"),
 				Procs: rapid.SampledFrom([]int{2, 4, 16}).Draw(rt, "procs"), Salt: rapid.Uint64().Draw(rt, "salt")}
+			if c.Goroutines > 1000 { // "any number of goroutines": a crowd, each doing little
+				n, c.Rounds = rapid.IntRange(3, 6).Draw(rt, "ncrowd"), 6 // long enough for goroutines to be preempted mid-call
+			}
 			mods := map[string]bool{}
 			ck, ext := 0, 0
 			for i := 0; i < n; i++ {
@@ -504,7 +524,13 @@ func TestC20(t *testing.T) {
 				default:
 					tn = rapid.SampledFrom(TypeNames).Draw(rt, "type")
 				}
+				if c.Goroutines > 1000 && i == 0 {
+					tn = rapid.SampledFrom(c20ListTypes()).Draw(rt, "listtype")
+				}
 				o := GenOpts{Mode: Canonical, MaxList: 300, BigProb: 50}
+				if c.Goroutines > 1000 && i == 0 {
+					o.BigProb = 2
+				}
 				v, ft := GenValue(rt, tn, o)
 				c.Items = append(c.Items, v)
 				mods[Types[tn].Module] = true
